@@ -23,12 +23,12 @@ Definition w_journal : list sdirective :=
     SAssert w_date [mkBalance w_A (mkDec (-1) 0) w_CHF] ].
 
 Definition text_of (r : cresult Str.str) : Str.str := match r with COk t => t | _ => [] end.
-Definition w_text : Str.str := Eval vm_compute in text_of (print_cmd true w_journal).
-Definition w_text_fixed : Str.str := Eval vm_compute in text_of (print_cmd_fixed true w_journal).
+Definition w_text : Str.str := Eval vm_compute in text_of (print_cmd_pinned true w_journal).
+Definition w_text_fixed : Str.str := Eval vm_compute in text_of (print_cmd true w_journal).
 
 Lemma multi_assertion_refuted :
-  exists ds text, accepted true ds /\ accepted false ds /\ printed (print_cmd true) ds text /\
-                  printed (print_cmd false) ds text /\ reparse text = MErr e_syntax.
+  exists ds text, accepted true ds /\ accepted false ds /\ printed (print_cmd_pinned true) ds text /\
+                  printed (print_cmd_pinned false) ds text /\ reparse text = MErr e_syntax.
 Proof.
   exists w_journal, w_text.
   split; [vm_compute; reflexivity|]. split; [vm_compute; reflexivity|].
@@ -38,8 +38,8 @@ Qed.
 (* the repaired printer on the same journal: its output is read back, accepted, and printed
    again byte for byte *)
 Lemma multi_assertion_fixed_ok :
-  printed (print_cmd_fixed true) w_journal w_text_fixed /\
-  normal_form_b (print_cmd_fixed true) w_text_fixed = true.
+  printed (print_cmd true) w_journal w_text_fixed /\
+  normal_form_b (print_cmd true) w_text_fixed = true.
 Proof. split; vm_compute; reflexivity. Qed.
 
 Ltac Zify.zify_post_hook ::= Z.div_mod_to_equations.
@@ -305,17 +305,17 @@ Proof. intros H. unfold load. now rewrite (denote_fixpoint ss ds H), H. Qed.
 (* at the model level: replacing a loadable journal by the directives it denotes changes nothing
    for check, print (either printer) or any balance report -- the same bytes *)
 Theorem denote_same_commands ss ds : parse_directives ss = MOk ds ->
-  (forall l, check_cmd l (denote ss) = check_cmd l ss) /\
+  (forall l, check_cmd_current l (denote ss) = check_cmd_current l ss) /\
+  (forall l, print_cmd_pinned l (denote ss) = print_cmd_pinned l ss) /\
   (forall l, print_cmd l (denote ss) = print_cmd l ss) /\
-  (forall l, print_cmd_fixed l (denote ss) = print_cmd_fixed l ss) /\
   (forall cfg, balance_csv cfg (denote ss) = balance_csv cfg ss) /\
   (forall cfg tc, balance_text cfg tc (denote ss) = balance_text cfg tc ss).
 Proof.
   intros H. pose proof (denote_load ss ds H) as HL.
   repeat split; intros.
-  - unfold check_cmd. now rewrite HL.
+  - unfold check_cmd_current. now rewrite HL.
+  - unfold print_cmd_pinned. now rewrite HL.
   - unfold print_cmd. now rewrite HL.
-  - unfold print_cmd_fixed. now rewrite HL.
   - unfold balance_csv, balance_table, balance_report. now rewrite HL.
   - unfold balance_text, balance_table, balance_report. now rewrite HL.
 Qed.
@@ -329,7 +329,7 @@ Qed.
 (* an accepted journal loads *)
 Lemma accepted_loads l ss : accepted l ss -> exists ds, parse_directives ss = MOk ds.
 Proof.
-  unfold accepted, check_cmd, load. destruct (parse_directives ss) as [ds| |]; cbn; try discriminate.
+  unfold accepted, check_cmd_current, load. destruct (parse_directives ss) as [ds| |]; cbn; try discriminate.
   intros _. now exists ds.
 Qed.
 
@@ -345,12 +345,12 @@ Fixpoint multi_then_more (l : list (list balance)) : bool :=
      end) || multi_then_more rest
   end.
 
-Lemma print_asserts_fixed_same dt l : multi_then_more l = false ->
-  print_asserts_fixed dt l = concat (map (fun a => print_assertion dt a ++ [10]) l).
+Lemma print_asserts_same dt l : multi_then_more l = false ->
+  print_asserts dt l = concat (map (fun a => print_assertion dt a ++ [10]) l).
 Proof.
   induction l as [|a rest IH]; intros H; [reflexivity|].
   cbn [multi_then_more] in H. apply orb_false_iff in H. destruct H as [H1 H2].
-  cbn [print_asserts_fixed map concat]. rewrite <- app_assoc. f_equal. f_equal.
+  cbn [print_asserts map concat]. rewrite <- app_assoc. f_equal. f_equal.
   destruct rest as [|b rest']; [reflexivity|].
   rewrite <- (IH H2).
   destruct a as [|x [|y a']]; try discriminate. reflexivity.
@@ -360,13 +360,13 @@ Definition no_multi_then_more (days : list day) : Prop :=
   Forall (fun d => multi_then_more (d_asserts d) = false) days.
 
 Lemma print_day_fixed_same pad d : multi_then_more (d_asserts d) = false ->
-  print_day_fixed pad d = print_day pad d.
-Proof. intros H. unfold print_day_fixed, print_day. now rewrite print_asserts_fixed_same. Qed.
+  print_day pad d = print_day_pinned pad d.
+Proof. intros H. unfold print_day, print_day_pinned. now rewrite print_asserts_same. Qed.
 
 Lemma print_journal_fixed_same days : no_multi_then_more days ->
-  print_journal_fixed days = print_journal days.
+  print_journal days = print_journal_pinned days.
 Proof.
-  intros H. unfold print_journal_fixed, print_journal. cbv zeta. f_equal.
+  intros H. unfold print_journal, print_journal_pinned. cbv zeta. f_equal.
   apply map_ext_in. intros d Hd. apply print_day_fixed_same.
   unfold sort_days in Hd. apply in_map_iff in Hd. destruct Hd as (d0 & <- & Hd0).
   cbn [set_txns d_asserts]. exact (proj1 (Forall_forall _ _) H d0 Hd0).
@@ -375,24 +375,24 @@ Qed.
 (* the pinned and the repaired print command agree on every journal in which no multi-balance
    assertion is followed by another assertion of the same day *)
 Lemma print_cmd_fixed_same l ds b :
-  load ds = COk b -> no_multi_then_more (b_days b) -> print_cmd_fixed l ds = print_cmd l ds.
+  load ds = COk b -> no_multi_then_more (b_days b) -> print_cmd l ds = print_cmd_pinned l ds.
 Proof.
-  intros Hl Hn. unfold print_cmd_fixed, print_cmd. rewrite Hl. cbn [cbind].
-  destruct (run_stage (check_proc l) check_init (b_days b)); cbn [cbind]; try reflexivity.
+  intros Hl Hn. unfold print_cmd, print_cmd_pinned. rewrite Hl. cbn [cbind].
+  destruct (run_stage (check_proc_current l) check_init (b_days b)); cbn [cbind]; try reflexivity.
   now rewrite print_journal_fixed_same.
 Qed.
 
 (* print checks first: what is printed was accepted *)
-Lemma printed_accepted l ds text : printed (print_cmd l) ds text -> accepted l ds.
+Lemma printed_accepted l ds text : printed (print_cmd_pinned l) ds text -> accepted l ds.
 Proof.
-  unfold printed, accepted, print_cmd, check_cmd. destruct (load ds); cbn [cbind]; try discriminate.
-  destruct (run_stage (check_proc l) check_init (b_days a)); cbn [cbind]; try discriminate. reflexivity.
+  unfold printed, accepted, print_cmd_pinned, check_cmd_current. destruct (load ds); cbn [cbind]; try discriminate.
+  destruct (run_stage (check_proc_current l) check_init (b_days a)); cbn [cbind]; try discriminate. reflexivity.
 Qed.
 
-Lemma printed_fixed_accepted l ds text : printed (print_cmd_fixed l) ds text -> accepted l ds.
+Lemma printed_fixed_accepted l ds text : printed (print_cmd l) ds text -> accepted l ds.
 Proof.
-  unfold printed, accepted, print_cmd_fixed, check_cmd. destruct (load ds); cbn [cbind]; try discriminate.
-  destruct (run_stage (check_proc l) check_init (b_days a)); cbn [cbind]; try discriminate. reflexivity.
+  unfold printed, accepted, print_cmd, check_cmd_current. destruct (load ds); cbn [cbind]; try discriminate.
+  destruct (run_stage (check_proc_current l) check_init (b_days a)); cbn [cbind]; try discriminate. reflexivity.
 Qed.
 
 (* ------------------------------------------------------------------ a worked example *)
@@ -415,15 +415,15 @@ Definition x_journal : list sdirective :=
     SAssert (of_civil 2020 3 31) [mkBalance x_acc (mkDec 0 (-2)) w_CHF];
     SClose (of_civil 2020 3 31) x_acc ].
 
-Definition x_text : Str.str := Eval vm_compute in text_of (print_cmd_fixed true x_journal).
+Definition x_text : Str.str := Eval vm_compute in text_of (print_cmd true x_journal).
 Definition x_cfg : balance_cfg :=
   mkBalanceCfg 0 (of_civil 2020 12 31) Monthly 0 false false None true [] [] [] [] [] true.
 
 Lemma example_roundtrip :
-  accepted true x_journal /\ printed (print_cmd_fixed true) x_journal x_text /\
-  normal_form_b (print_cmd_fixed true) x_text = true /\
+  accepted true x_journal /\ printed (print_cmd true) x_journal x_text /\
+  normal_form_b (print_cmd true) x_text = true /\
   same_report_b x_cfg x_journal x_text = true /\
-  normal_form_b (print_cmd true) (text_of (print_cmd true x_journal)) = false.
+  normal_form_b (print_cmd_pinned true) (text_of (print_cmd_pinned true x_journal)) = false.
 Proof. repeat split; vm_compute; reflexivity. Qed.
 
 (* ------------------------------------------------------------------ leaves through ToModel *)
@@ -455,8 +455,8 @@ Proof.
 Qed.
 
 Lemma printed_denote l ss text :
-  (printed (print_cmd l) ss text -> printed (print_cmd l) (denote ss) text) /\
-  (printed (print_cmd_fixed l) ss text -> printed (print_cmd_fixed l) (denote ss) text).
+  (printed (print_cmd_pinned l) ss text -> printed (print_cmd_pinned l) (denote ss) text) /\
+  (printed (print_cmd l) ss text -> printed (print_cmd l) (denote ss) text).
 Proof.
   split; intros H.
   - destruct (accepted_loads l ss (printed_accepted l ss text H)) as [ds Hds].
@@ -478,6 +478,6 @@ Lemma denote_idem_accepted l ss : accepted l ss -> denote (denote ss) = denote s
 Proof. intros H. destruct (accepted_loads l ss H) as [ds Hds]. exact (denote_idem ss ds Hds). Qed.
 
 Lemma printed_accepted_both l ds text :
-  (printed (print_cmd l) ds text -> accepted l ds) /\
-  (printed (print_cmd_fixed l) ds text -> accepted l ds).
+  (printed (print_cmd_pinned l) ds text -> accepted l ds) /\
+  (printed (print_cmd l) ds text -> accepted l ds).
 Proof. split; [apply printed_accepted|apply printed_fixed_accepted]. Qed.
